@@ -81,8 +81,9 @@ Prefixed(ls) == [i \in 1..Len(ls) |-> " " \o ls[i]]
 
 LineLens(lines) == [i \in 1..Len(lines) |-> Len(lines[i]) + 1]
 TotalLen(lines) == SumSeq(LineLens(lines))                         \* characters including terminators
-\* Cap20K applies to real files only: VFSZip.open returns a codecs.StreamReader whose readlines() ignores the hint
-Capped(kind, lines) == kind \in {"file", "dir", "gzfile", "mapfile", "mapdir"} /\ TotalLen(lines) >= Hint
+\* Cap20K applies to ZIP members too since fix 9d1e32d (VFSZip.open returns an io.TextIOWrapper, whose readlines() honours
+\* the hint like a text file on disk; the codecs.StreamReader it returned before ignored the hint)
+Capped(kind, lines) == kind \in {"file", "dir", "gzfile", "mapfile", "mapdir", "zipfile", "zipdir"} /\ TotalLen(lines) >= Hint
 
 --------------------------------------------------------------------------------
 (* The abstract sidecar: [p, lines, nl]; gamma writes TextOf(lines, nl) to the file         *)
